@@ -122,7 +122,7 @@ def replay(harness, config, case):
 
 def run(run):
     quick = run.tier == "quick"
-    depth = {"tag": 5 if quick else 6, "cmt": 8 if quick else 11, "doctype": 5 if quick else 7,
+    depth = {"tag": 5 if quick else 6, "cmt": 8 if quick else 10, "doctype": 5 if quick else 7,
              "raw": 5 if quick else 7, "ref": 4 if quick else 5, "cdata": 6 if quick else 9}
     only = os.environ.get("VERIF_THEMES")
     total_states = total_trans = 0
